@@ -291,3 +291,84 @@ func HandleTemplate(c *core.Check, st core.State) {
 		}
 	}
 }
+
+// FixedDocs: documents beyond the exhaustive class strings (extreme numbers, deep nesting, every
+// escape form, all whitespace forms). They are judged with the same relation; the recogniser's role is
+// played by encoding/json.Valid, which the class-string stage calibrates against Json8259.tla.
+func FixedDocs() []string {
+	deepA := strings.Repeat("[", 200) + "1" + strings.Repeat("]", 200)
+	deepO := strings.Repeat(`{"a":`, 150) + "null" + strings.Repeat("}", 150)
+	return []string{
+		"1e400", "1E-400", "-0", "-0.0", "0.0000000000000000000000001", "1234567890123456789012345678901234567890",
+		"12345678901234567890.12345678901234567890", "1e+2", "1E+02", "-1.5e-3", "0e0", "9007199254740993", "-9223372036854775809",
+		deepA, deepO, deepA[:len(deepA)-1], deepO + "}",
+		`"\u0041\u00e9\ud83d\ude00\n\r\t\b\f\/\\\""`, `"\ud83d"`, `"\ude00\ud83d"`, `"\u0000"`, `"tab\there"`,
+		" \t\n\r[ \t\n\r1 \t\n\r, \t\n\r2 \t\n\r] \t\n\r", `{"a":1,"a":2}`, `[{"k":[{"k":{"k":[]}}]}]`, `{"":""}`, `[[],{},"",0,null,true,false]`,
+		`{"a":1,}`, `[1,]`, `[,1]`, `{"a" 1}`, `{'a':1}`, "NaN", "Infinity", "-Infinity", "+1", "01", "1.", ".5", "-", "1e", "1e+", "0x10", "tru", "nul", "True",
+		`"unterminated`, "\"raw\ttab\"", "\"raw\nnewline\"", `"bad \q escape"`, `"\u12"`, `"\u12G4"`, "[1] x", "[1][2]", "{}{}", "", " ", "\ufeff1",
+		`"${not.a.template}"`, `"%{ if x }y%{ endif }"`, `"$${escaped}"`,
+	}
+}
+
+// HandleDoc applies the C13 relation to one concrete document.
+func HandleDoc(c *core.Check, doc string) {
+	src := []byte(doc)
+	c.Count("evaluations", 1)
+	accept := stdjson.Valid(src)
+	if strings.HasPrefix(doc, "\ufeff") {
+		return // a leading BOM: either verdict is accepted (RFC 8259 lets parsers ignore it)
+	}
+	vec := map[string]any{"source": doc, "kind": "doc"}
+	var expr hcl.Expression
+	var diags hcl.Diagnostics
+	if rec, pn := core.Guard(func() { expr, diags = hcljson.ParseExpression(src, "x.json") }); pn {
+		c.Violation("panic/ParseExpression", fmt.Sprintf("json.ParseExpression(%q) panicked: %v", abbreviate(doc), rec), vec)
+		return
+	}
+	if diags.HasErrors() == accept {
+		if accept {
+			// spec.md allows an error for numbers whose exponent leaves the representable range
+			if strings.ContainsAny(doc, "eE") && len(doc) < 12 && strings.Contains(strings.ToLower(diags[0].Summary), "number") {
+				return
+			}
+			c.Violation("valid-json-rejected/"+diags[0].Summary, fmt.Sprintf("%q is a valid JSON text but is rejected: %s", abbreviate(doc), diags.Error()), vec)
+		} else {
+			c.Violation("invalid-json-accepted/doc", fmt.Sprintf("%q is not a valid JSON text but is accepted", abbreviate(doc)), vec)
+		}
+		return
+	}
+	if !accept {
+		return
+	}
+	dec := stdjson.NewDecoder(bytes.NewReader(src))
+	dec.UseNumber()
+	want, dup, err := decode(dec)
+	if err != nil {
+		c.Broken("oracle decoder failed on %q: %v", abbreviate(doc), err)
+		return
+	}
+	var got cty.Value
+	var vd hcl.Diagnostics
+	if rec, pn := core.Guard(func() { got, vd = expr.Value(nil) }); pn {
+		c.Violation("panic/Value", fmt.Sprintf("evaluating %q panicked: %v", abbreviate(doc), rec), vec)
+		return
+	}
+	if dup {
+		if !vd.HasErrors() {
+			c.Violation("duplicate-names-accepted", fmt.Sprintf("%q has duplicate names but evaluates without error", abbreviate(doc)), vec)
+		}
+		return
+	}
+	if vd.HasErrors() || !got.RawEquals(want) {
+		c.Violation("literal-value/doc", fmt.Sprintf("%q denotes %s but evaluates to %s (errors=%v)", abbreviate(doc), abbreviate(e1.Describe(want)), abbreviate(e1.Describe(got)), vd.HasErrors()), vec)
+		return
+	}
+	c.Nontrivial(doc)
+}
+
+func abbreviate(s string) string {
+	if len(s) > 160 {
+		return s[:80] + "..." + s[len(s)-60:]
+	}
+	return s
+}
